@@ -1,7 +1,7 @@
 (* Entry points [sx -> sx] for the schema pipeline: decode a case, run the model, encode what the
    harness observes of the Go run. *)
 From Coq Require Import List ZArith Bool.
-From Verif Require Import Base.Sx Base.GoVal Base.F64 Schema.Ast Schema.Pipeline Schema.Simple Schema.Draft4 Schema.Classes Schema.Helpers.
+From Verif Require Import Base.Sx Base.GoVal Base.F64 Schema.Ast Schema.Pipeline Schema.Simple Schema.Draft4 Schema.Classes Schema.Helpers Schema.Post.
 Import ListNotations.
 Open Scope Z_scope.
 
@@ -163,6 +163,22 @@ Definition run_h14 (s : sx) : sx :=
           | 12, [A fmt; A data] => L [A (format_of ho fmt data); A (format_of ho fmt data)]
           | _, _ => sx_err
           end
+      end
+  | _ => sx_err
+  end.
+
+(* post-processing (C18 C19): same case as run_schema -> (outcome, data after ApplyDefaults, data after Prune) *)
+Definition run_post (s : sx) : sx :=
+  match s with
+  | L [orc; opts; dfs; sch; A root; data; A fuel; _] =>
+      match get_oracles orc, get_options opts, get_env dfs, get_schema sch, get_goval data with
+      | Some orc, Some opts, Some dfs, Some sch, Some data =>
+          match sv_validate orc flocq_ops opts dfs (Z.to_nat fuel) sch [SRoot root] [SRoot root] data with
+          | Ok r => L [A 0; ofBool (r_valid r); of_goval (apply_defaults r data); of_goval (prune r data)]
+          | Panic site => L [A 1; A site]
+          | OutOfFuel => L [A 2]
+          end
+      | _, _, _, _, _ => sx_err
       end
   | _ => sx_err
   end.
